@@ -1,5 +1,6 @@
 """C09 Ordering and selection filters keep exactly the interactions they promise."""
 import itertools
+import gc
 import json
 import math
 import os
@@ -349,6 +350,52 @@ class Run:
         return self.collect(it)
 
 
+def need_of(b, k):
+    """items a read of branch `b` (consumer takes k, None = all) pulls out of the cache: a number / None (all), or the name of
+    the model's Pull kind for the whole-input filters (then the MODEL computes it: pullNeed)"""
+    if b is not None and b["name"] == "riffle":
+        return "eager"
+    if b is not None and b["name"] == "reservoir":
+        return "never" if b["count"] == 0 else "onFirst"
+    if b is not None and b["name"] in ("eshuffle", "sort"):
+        return "onFirst"
+    if b is not None and b["name"] == "take" and b.get("strict"):
+        return b["count"]
+    if k == 0:
+        return 0
+    if b is None or b["name"] in ("identity", "params", "chunk"):
+        return k
+    if b["name"] == "take":
+        vs = [v for v in (b["count"], k) if v is not None]
+        return min(vs) if vs else None
+    if b["name"] == "slice":
+        if k is None:
+            return b["stop"]
+        nd = (b["start"] or 0) + (k - 1) * (b.get("step") or 1) + 1
+        return nd if b["stop"] is None else min(nd, b["stop"])
+    return None
+
+
+def pipes_by_env(e):
+    """{index of the source environment: [pipelines]} of an Environments object (Finalize taken off, as in via_envs)"""
+    from coba.environments.filters import BatchSafe, Finalize
+    from coba.pipes import Pipes
+    out = {}
+    for pos, pipe in enumerate(getattr(e, "_envs")):
+        parts = list(pipe)
+        if isinstance(parts[-1], BatchSafe) and isinstance(getattr(parts[-1], "_filter", None), Finalize):
+            pipe = Pipes.join(*parts[:-1])
+        out.setdefault(getattr(parts[0], "idx", pos), []).append(pipe)
+    return out
+
+
+def leave_how(case, step):
+    """how the abandoned read #step of a multi / product case leaves its iterator: kept alive, closed, dropped (in turn; a case
+    may fix it with case["leave"])"""
+    lv = case.get("leave") or ["alive", "close", "del"]
+    return lv[step % len(lv)]
+
+
 def same(a, b):
     return a.get("ids") == b.get("ids") and a.get("err") == b.get("err")
 
@@ -383,6 +430,55 @@ def reservoir_steps(state, count, n_rest, limit=400):
                 return steps, zero
             remaining -= S + 1
     return steps, zero
+
+
+def ref_reservoir_public(ids, count, strict, seed):
+    """(sample, number of replacement steps): an independent straight-line Algorithm L (Li 1994) over PUBLIC CobaRandom calls
+    only - one generator, initial shuffle, then uniforms drawn ONE AT A TIME (three per step, no batching) - i.e. the sample
+    "the seed determines".  Carries the zero-uniform guard of fix C09-F1.  None when the float formulas raise."""
+    from coba.random import CobaRandom
+    rng = CobaRandom(seed)
+    if count == 0:
+        return [], 0
+    if count is None:
+        return list(rng.shuffle(list(ids))), 0
+    it = iter(ids)
+    res = list(itertools.islice(it, count))
+    if len(res) < count:
+        return ([] if strict else list(rng.shuffle(res, inplace=True))), 0
+    res = rng.shuffle(res, inplace=True)
+    W, steps = 1, 0
+    try:
+        while True:
+            r1, r2, r3 = rng.random(), rng.random(), rng.random()
+            if r1 == 0 or r2 == 0:
+                continue
+            W = W * r1 ** (1 / count)
+            S = math.floor(math.log(r2, 1 - W))
+            try:
+                res[int(r3 * count)] = next(itertools.islice(it, S, S + 1))
+            except StopIteration:
+                return list(res), steps
+            steps += 1
+    except (ValueError, ZeroDivisionError, OverflowError):
+        return None, steps
+
+
+def reservoir_ok_py(count, steps, n):
+    """Python mirror of the model's `reservoirOk` (lengths only): does Reservoir(count) on n items return, given the loop's steps"""
+    if count is None or count == 0 or n < count:
+        return True
+    rest = n - count
+    for st in steps:
+        if isinstance(st, dict):
+            return False
+        S, slot = st
+        if rest <= S:
+            return True
+        if not slot < count:
+            return False
+        rest -= S + 1
+    return False
 
 
 def zero_uniform_hit(state, n_rest, count):
@@ -529,6 +625,38 @@ def _lean_pairs(ps):
     return "[%s]" % ", ".join("(%s, %s)" % (_lean_str(a), _lean_str(b)) for a, b in ps)
 
 
+def extract_program(repo, name):
+    """the body of Environments.<name> as a small program: [(depth, kind, a, b)] - kind assign (target, expression), if (test),
+    else, return (expression); docstring and comments dropped, expressions as ast.unparse text"""
+    core = ast.parse(open(os.path.join(repo, "coba/environments/core.py"), encoding="utf-8").read())
+    envs = next(n for n in ast.walk(core) if isinstance(n, ast.ClassDef) and n.name == "Environments")
+    fn = next(f for f in envs.body if isinstance(f, ast.FunctionDef) and f.name == name and not any(ast.unparse(d).endswith("overload") for d in f.decorator_list))
+    out = []
+
+    def walk(stmts, d):
+        for st in stmts:
+            if isinstance(st, ast.Expr) and isinstance(st.value, ast.Constant) and isinstance(st.value.value, str):
+                continue
+            if isinstance(st, ast.If):
+                out.append((d, "if", ast.unparse(st.test), ""))
+                walk(st.body, d + 1)
+                if st.orelse:
+                    out.append((d, "else", "", ""))
+                    walk(st.orelse, d + 1)
+            elif isinstance(st, ast.Assign) and len(st.targets) == 1:
+                out.append((d, "assign", ast.unparse(st.targets[0]), ast.unparse(st.value)))
+            elif isinstance(st, ast.Return):
+                out.append((d, "return", "" if st.value is None else ast.unparse(st.value), ""))
+            else:
+                out.append((d, "other", type(st).__name__, " ; ".join(ast.unparse(st).split("\n"))[:300]))
+    walk(fn.body, 0)
+    return out
+
+
+def _lean_prog(prog):
+    return "[%s]" % ",\n  ".join("(%d, %s, %s, %s)" % (d, _lean_str(k), _lean_str(a), _lean_str(b)) for d, k, a, b in prog)
+
+
 def shortcuts_lean(repo):
     rows, ctors = extract_shortcuts(repo), extract_ctors(repo)
     body = ("-- GENERATED by harness/props/c09.py (pre_build) from coba/environments/core.py, coba/environments/filters.py and\n"
@@ -537,9 +665,16 @@ def shortcuts_lean(repo):
             "def extracted : Bool := true\n"
             "def shortcuts : List ShortcutRow := [\n%s]\n"
             "def ctors : List CtorRow := [\n%s]\n"
+            "def shuffleProgram : List PLine := PROG_SHUFFLE\n"
+            "def chunkProgram : List PLine := PROG_CHUNK\n"
             "end Coba.Generated.C09\n"
             % (",\n".join("  { method := %s, sig := %s, calls := [%s] }" % (_lean_str(m), _lean_pairs(sg), ", ".join("(%s, %s)" % (_lean_str(c), _lean_pairs(a)) for c, a in calls)) for m, sg, calls in rows),
                ",\n".join("  { cls := %s, src := %s, sig := %s }" % (_lean_str(c), _lean_str(w), _lean_pairs(sg)) for c, w, sg in ctors)))
+    try:
+        ps, pc = _lean_prog(extract_program(repo, "shuffle")), _lean_prog(extract_program(repo, "chunk"))
+    except Exception:  # noqa: BLE001 - an unextractable body breaks shuffle_chunk_programs_as_modelled
+        ps = pc = "[]"
+    body = body.replace("PROG_SHUFFLE", ps).replace("PROG_CHUNK", pc)
     return body, rows, ctors
 
 
@@ -562,6 +697,9 @@ class C09(Property):
             "reservoir(n, seeds=[..])) with the member order compared; 4 % hand-made Unbatch inputs (fully batched with uneven sizes, un-batched, mixed "
             "cells, numbers / nested lists); 15 % of the accessor-free filters additionally through BatchSafe on hand-made batches of uneven sizes "
             "incl. an empty first batch; 8 % additionally through BatchSafe on the plain and on the batched input; non-trivial = the input has >= 2 interactions and the filter is not Identity/Chunk/Params; "
+            "5 % 2-3 environments (up to 60 interactions) behind .cache()/.chunk() with shuffle / reservoir / sort / riffle (and selecting) branches, reads closed / dropped / "
+            "alive (cachemulti); 3 % every call form of Environments.shuffle (n=, seed=, seeds=, nested lists, positional, nothing) and chunk(cache) (shufcall); corpus: 15 long reservoir runs "
+            "(25-234 replacement steps, crossing the 20-triple batch of Reservoir.filter) checked against an independent Algorithm L over public CobaRandom calls; "
             "distinct by canonical JSON of the case")
     trusted_base = [
         "Reservoir's W = W*r1**x, S = floor(log(r2,1-W)), slot = int(r3*n) are evaluated by the model itself on Lean `Float` (IEEE doubles, the C "
@@ -607,6 +745,7 @@ class C09(Property):
             body = ("-- GENERATED: the shortcut table could not be extracted (%s)\n"
                     "import CobaVerif.Model.C09\nnamespace Coba.Generated.C09\nopen Coba.C09\n"
                     "def extracted : Bool := false\ndef shortcuts : List ShortcutRow := []\ndef ctors : List CtorRow := []\n"
+                    "def shuffleProgram : List PLine := []\ndef chunkProgram : List PLine := []\n"
                     "end Coba.Generated.C09\n" % str(e).replace("\n", " ")[:150])
             notes = ["shortcut table could NOT be extracted (%s): shortcuts_wired_as_modelled fails" % e]
         path = os.path.join(lean.LEAN_DIR, "CobaVerif", "Generated", "C09Shortcuts.lean")
@@ -722,12 +861,36 @@ class C09(Property):
             return self.generate_unbatchg(rng)
         if r < 28:
             return self.generate_cachepipe(rng, tier, boundary)
+        if r < 33:
+            return self.generate_cachemulti(rng, tier, boundary)
+        if r < 36:
+            return self.generate_shufcall(rng, tier, boundary)
         return self.generate_single(rng, tier, boundary)
 
     # ------------------------------------------------------------ selecting filters around a shared .cache() / .chunk()
-    def gen_branch(self, rng, n, items):
+    def gen_random_branch(self, rng, n, rnd):
+        """a whole-input shortcut (shuffle / reservoir / sort / riffle) downstream of a cache; rnd = (context shape, meta of gen_items)"""
+        ctx, meta = rnd
+        kinds = [(30, "eshuffle"), (30, "reservoir"), (20, "riffle")] + ([(25, "sort")] if ctx in ("list", "dict") else [])
+        b = rng.wchoice(kinds)
+        if b == "eshuffle":
+            return {"name": "eshuffle", "seed": self.gen_seed(rng, nonneg_int=True), "how": rng.below(4)}
+        if b == "reservoir":
+            return {"name": "reservoir", "count": rng.choice([0, 0, 1, 2, 24, 25, 26, max(0, n - 1), n, n + 1, None, rng.randint(0, n + 2)]),
+                    "strict": rng.chance(0.4), "seed": self.gen_seed(rng, nonneg_int=True), "how": rng.below(2)}
+        if b == "riffle":
+            return {"name": "riffle", "spacing": rng.choice([0, 1, 2, 3, 6, 25]), "seed": self.gen_seed(rng, nonneg_int=True)}
+        if ctx == "list":
+            keys = [rng.below(meta["width"]) for _ in range(rng.randint(0, 2))]
+        else:
+            keys = [rng.choice(meta["spkeys"]) for _ in range(rng.randint(1, 2))]
+        return {"name": "sort", "keys": keys}
+
+    def gen_branch(self, rng, n, items, rnd=None):
         """one downstream shortcut on a cached environment of n interactions (None = the cached environment itself)"""
-        b = rng.wchoice([(30, "take"), (22, "slice"), (20, "where"), (8, "params"), (5, "identity"), (15, "none")])
+        b = rng.wchoice([(30, "take"), (22, "slice"), (20, "where"), (8, "params"), (5, "identity"), (15, "none")] + ([(45, "random")] if rnd is not None else []))
+        if b == "random":
+            return self.gen_random_branch(rng, n, rnd)
         near = [0, 1, 2, 3, 24, 25, 26, 49, 50, 51, max(0, n - 1), n, n + 1, rng.randint(0, n + 2)]
         if b == "take":
             op = {"name": "take", "count": rng.choice(near + [None])}
@@ -763,14 +926,15 @@ class C09(Property):
         self._log_acts = True
         self._extra = rng.chance(0.2)
         self._bare_keys = []
-        items, _ = self.gen_items(rng, n, kind, rng.choice(["list", "list", "dict", "none"]), "list")
+        ctxk = rng.choice(["list", "list", "dict", "none"])
+        items, meta = self.gen_items(rng, n, kind, ctxk, "list")
         pre = None
         if rng.chance(0.25):
             pre = rng.choice([{"name": "take", "count": rng.choice([n, max(0, n - 3), 30, 26, 55]), "strict": False},
                               {"name": "slice", "start": rng.choice([None, 1, 5]), "stop": rng.choice([None, n, 40, 60]), "step": rng.choice([None, 1, 2])}])
         cop = rng.wchoice([(60, {"name": "cache"}), (25, {"name": "chunk", "default": True}), (15, {"name": "chunk", "cache": True})])
         nb = rng.choice([1, 1, 2, 2, 3])
-        branches = [self.gen_branch(rng, n, items) for _ in range(nb)]
+        branches = [self.gen_branch(rng, n, items, (ctxk, meta)) for _ in range(nb)]
         reads = []
         if rng.chance(0.6):                              # the shape of the round-g change: short closed read, then everything
             reads.append([rng.below(nb), rng.choice([1, 1, 2, 3, 25, 26]), rng.choice(["close", "close", "del"])])
@@ -779,6 +943,25 @@ class C09(Property):
             reads.append([rng.below(nb), k, rng.wchoice([(55, "close"), (20, "del"), (25, "alive")])])
         return {"kind": kind, "items": items, "op": {"name": "cachepipe", "cache": cop, "pre": pre, "branches": branches}, "reads": reads,
                 "input": rng.choice(["list", "iter", "gen"])}
+
+    def corpus_reslong(self):
+        """round h: long reservoir runs that cross the internal batch boundary of Reservoir.filter (20 triples = 60 uniforms per
+        `rng.randoms` call): 25-40, 41-63 and >= 64 replacement steps, several seeds, pipes / environment class / Environments.reservoir"""
+        def its(n):
+            return [{"id": i, "ctx": None, "actions": [1, 2], "rewards": [0, 1]} for i in range(n)]
+        cs = []
+        for N, c, seed, extra in ((150, 10, 1, {}), (150, 10, 2, {"pipes": True}), (150, 10, 3, {}), (300, 8, 2, {"via_env": True}),      # 25-40 steps
+                                  (200, 10, 1, {}), (400, 10, 1, {"pipes": True}), (400, 10, 7, {}), (1000, 10, 2, {"via_env": True}),  # 41-63
+                                  (400, 20, 1, {}), (400, 20, 2, {"pipes": True}), (400, 20, 3, {"via_env": True}), (600, 30, 1, {}),
+                                  (1000, 100, 1, {}), (1000, 100, 3, {"pipes": True}), (1000, 10, 1, {})):                             # >= 64 / 57
+            op = {"name": "reservoir", "count": c, "strict": seed % 2 == 0, "seed": {"kind": "int", "v": seed}}
+            case = {"kind": "sim", "items": its(N), "op": op, "input": "iter" if extra.get("pipes") else "list"}
+            if extra.get("pipes"):
+                op["pipes"] = True
+            if extra.get("via_env"):
+                case["via_env"] = True
+            cs.append(case)
+        return cs
 
     def corpus_cachepipe(self, sim, log):
         cs = []
@@ -831,7 +1014,7 @@ class C09(Property):
             pipes = []
             for b in branches:
                 eb = ec if b is None else apply_method(ec, b)
-                ps = list(getattr(eb, "_envs"))
+                ps = [p_ for l_ in pipes_by_env(eb).values() for p_ in l_]
                 if len(ps) != 1:
                     fails.append(F("B", "%s: branch %s has %d pipelines for one environment" % (what, json.dumps(b), len(ps)), "cachepipe-%s-pipeline-count" % nm(b)))
                     return {"fails": fails, "nontrivial": False, "tags": tags, "impl": impl, "model": None}
@@ -886,26 +1069,16 @@ class C09(Property):
                     pending.append((j, k, label, o["ids"]))
         model = None
         if driver is not None and not fails:
-            def need(b, k):
-                if b is not None and b["name"] == "take" and b.get("strict"):
-                    return b["count"]
-                if k == 0:
-                    return 0
-                if b is None or b["name"] in ("identity", "params", "chunk"):
-                    return k
-                if b["name"] == "take":
-                    vs = [v for v in (b["count"], k) if v is not None]
-                    return min(vs) if vs else None
-                if b["name"] == "slice":
-                    if k is None:
-                        return b["stop"]
-                    nd = (b["start"] or 0) + (k - 1) * (b.get("step") or 1) + 1
-                    return nd if b["stop"] is None else min(nd, b["stop"])
-                return None
+            need = need_of
             req = {"op": "cachepipe", "nslice": 25, "items": model_items({"kind": case["kind"], "items": items}),
                    "pre": None if pre is None else self.inner_req(pre),
                    "reads": [[None if branches[j] is None else self.inner_req(branches[j]), need(branches[j], k), k] for j, k, how in order]}
-            ans = driver.ask(req)
+            if any(isinstance(r[1], str) for r in req["reads"]):       # whole-input branches: the model computes the pull (pullNeed)
+                base_case = {"kind": case["kind"], "items": base_items}
+                req = {"op": "cachemulti", "nslice": 25, "items": [], "envs": [model_items(base_case)], "reads": [[0] + r for r in req["reads"]]}
+                ans = dict(driver.ask(req), base=base_ids)
+            else:
+                ans = driver.ask(req)
             model = ans["reads"]
             got = [o for j, k, how, o in impl["reads"]]
             mo = [r.get("out", r.get("err")) for r in model]
@@ -915,6 +1088,270 @@ class C09(Property):
                 i = next(i for i in range(len(got)) if i >= len(mo) or mo[i] != got[i])
                 fails.append(F("A", "%s: read #%d %s delivers %s, the model (cachedRun) %s" % (what, i, order[i], got[i], mo[i] if i < len(mo) else None), "A:cachepipe"))
         return {"fails": fails, "nontrivial": len(base_ids) >= 2, "tags": tags, "impl": impl, "model": model}
+
+    # ------------------------------------------------------------ several environments x own caches x downstream branches
+    def generate_cachemulti(self, rng, tier, boundary=False):
+        """2-3 environments (0-60 interactions, lengths around 25/50) -> .cache()/.chunk() -> 1-3 downstream shortcuts, at least one of
+        them a whole-input one (shuffle / reservoir / sort / riffle); reads [branch, environment, k | None, close | del | alive]"""
+        ne = rng.choice([2, 2, 3])
+        kind = rng.wchoice([(60, "sim"), (30, "log"), (10, "grd")])
+        self._sparse_ids = False
+        self._log_prob = rng.chance(0.6)
+        self._log_acts = True
+        self._extra = rng.chance(0.2)
+        self._bare_keys = []
+        ctxk = rng.choice(["list", "list", "dict", "none"])
+        lens = [rng.choice([0, 1, 3, 10, 24, 25, 26, 27, 40, 50, 51, 60]) for _ in range(ne)]
+        if max(lens) <= 25:
+            lens[rng.below(ne)] = rng.choice([26, 30, 51, 60])
+        items, meta = self.gen_items(rng, sum(lens), kind, ctxk, "list")
+        envs, at = [], 0
+        for e, ln in enumerate(lens):
+            envs.append([dict(it, id=1000 * e + i) for i, it in enumerate(items[at:at + ln])])
+            at += ln
+        n = max(lens)
+        cop = rng.wchoice([(60, {"name": "cache"}), (25, {"name": "chunk", "default": True}), (15, {"name": "chunk", "cache": True})])
+        nb = rng.choice([1, 2, 2, 3])
+        branches = [self.gen_random_branch(rng, n, (ctxk, meta))] + [self.gen_branch(rng, n, items, (ctxk, meta)) for _ in range(nb - 1)]
+        branches = [b for b in branches if b is None or b["name"] != "where" or "n_actions" not in b] or [None]
+        branches = rng.shuffle(branches)
+        nb = len(branches)
+        reads = []
+        if rng.chance(0.6):
+            reads.append([rng.below(nb), rng.below(ne), rng.choice([1, 1, 2, 3, 25, 26]), rng.choice(["close", "close", "del"])])
+        for _ in range(rng.randint(2, 6)):
+            k = None if rng.chance(0.4) else rng.choice([0, 0, 1, 2, 3, 24, 25, 26, 50, 51, rng.randint(0, n + 1)])
+            reads.append([rng.below(nb), rng.below(ne), k, rng.wchoice([(55, "close"), (20, "del"), (25, "alive")])])
+        return {"kind": kind, "envs": envs, "op": {"name": "cachemulti", "cache": cop, "branches": branches}, "reads": reads,
+                "input": rng.choice(["list", "iter", "gen"])}
+
+    def corpus_cachemulti(self, sim, log):
+        def env(off, n, mk):
+            return [dict(it, id=off + i) for i, it in enumerate(mk(n))]
+        sh = {"name": "eshuffle", "seed": {"kind": "int", "v": 5}, "how": 0}
+        rs = {"name": "reservoir", "count": 26, "strict": False, "seed": {"kind": "int", "v": 3}, "how": 0}
+        r0 = {"name": "reservoir", "count": 0, "strict": False, "seed": {"kind": "int", "v": 3}, "how": 0}
+        rf = {"name": "riffle", "spacing": 3, "seed": {"kind": "int", "v": 1}}
+        so = {"name": "sort", "keys": [0]}
+        t3 = {"name": "take", "count": 3, "strict": False}
+        cs = []
+        for cop in ({"name": "cache"}, {"name": "chunk", "default": True}):
+            for b in (sh, rs, r0, rf, so):
+                for how in ("close", "del", "alive"):
+                    cs.append({"kind": "sim", "envs": [env(0, 60, sim), env(1000, 27, sim)], "op": {"name": "cachemulti", "cache": cop, "branches": [t3, b]},
+                               "reads": [[0, 0, None, how], [1, 1, 0, how], [1, 0, 1, how], [0, 1, 26, how], [1, 0, None, how]], "input": "gen"})
+            cs.append({"kind": "log", "envs": [env(0, 51, log), env(1000, 0, log), env(2000, 26, log)], "op": {"name": "cachemulti", "cache": cop, "branches": [sh, None, rs]},
+                       "reads": [[1, 2, 1, "close"], [0, 2, 2, "del"], [2, 0, 30, "close"], [0, 0, None, "close"], [1, 0, None, "alive"]], "input": "list"})
+        return cs
+
+    def evaluate_cachemulti(self, case, driver):
+        """(B) every complete read of every (branch, environment) delivers what the branch's filter promises for THAT environment's
+        interactions, the same on every re-read (determined by the seed), whatever was read / abandoned (closed, dropped, alive) of
+        this or another environment or branch before; abandoned reads are prefixes of the complete read"""
+        from coba.environments import Environments
+        fails, tags = [], []
+        op = case["op"]
+        mode = case.get("input", "list")
+        envs = case["envs"]
+        cop, branches = op["cache"], op["branches"]
+        runs = [Run({"kind": case["kind"], "items": e, "op": {"name": "cache"}, "input": mode}) for e in envs]
+        nm = lambda b: "cached" if b is None else b["name"]
+        what = "Environments(%s).%s -> branches %s read %s" % (", ".join("env%d[%d]" % (k, len(e)) for k, e in enumerate(envs)), json.dumps(cop), json.dumps(branches), json.dumps(case["reads"]))
+        tags += ["op:cachemulti", "cachemulti:" + cop["name"], "kind:" + case["kind"], "input:" + mode, "cachemulti:envs=%d" % len(envs)]
+        impl = {"reads": []}
+        try:
+            cls = _list_env_class()
+            ec = apply_method(Environments([cls(r.items, mode, k) for k, r in enumerate(runs)]), cop)
+            pipes = []
+            for b in branches:
+                by = pipes_by_env(ec if b is None else apply_method(ec, b))
+                if sorted(by) != list(range(len(envs))) or any(len(v) != 1 for v in by.values()):
+                    fails.append(F("B", "%s: branch %s has pipelines %s for %d environments" % (what, json.dumps(b), {k: len(v) for k, v in by.items()}, len(envs)), "cachemulti-%s-pipeline-count" % nm(b)))
+                    return {"fails": fails, "nontrivial": False, "tags": tags, "impl": impl, "model": None}
+                pipes.append({k: v[0] for k, v in by.items()})
+        except Exception as e:  # noqa: BLE001
+            fails.append(F("B", "%s raised %s (%s) while building the pipelines" % (what, errname(e), str(e)[:100]), "cachemulti-method-raises-" + errname(e)))
+            return {"fails": fails, "nontrivial": False, "tags": tags, "impl": impl, "model": None}
+        sub = lambda j, e: {"kind": case["kind"], "items": envs[e], "op": (branches[j] if branches[j] is not None else {"name": "cache"}), "input": mode}
+        order = [list(r) for r in case["reads"]] + [[j, e, None, "close"] for j in range(len(branches)) for e in range(len(envs))]
+        full, alive, pending = {}, [], []
+        for step, (j, e, k, how) in enumerate(order):
+            b, R = branches[j], runs[e]
+            label = "read #%d of branch %d (%s) of environment #%d, %s" % (step, j, nm(b), e, "complete" if k is None else "abandoned after %d (%s)" % (k, how))
+
+            def bfail(msg, sig, label=label):
+                fails.append(F("B", "%s: %s: %s" % (what, label, msg), "cachemulti-" + sig))
+            try:
+                g = iter(pipes[j][e].read())
+                if k is None:
+                    o = R.describe(list(g))
+                else:
+                    o = R.describe(list(itertools.islice(g, k)))
+                    if how == "alive":
+                        alive.append(g)
+                    elif how == "close" and hasattr(g, "close"):
+                        g.close()
+                del g
+                if how != "alive":
+                    gc.collect(0)
+            except Exception as ex:  # noqa: BLE001
+                o = {"err": errname(ex), "msg": str(ex)[:120]}
+            impl["reads"].append([j, e, k, how, o.get("ids", o.get("err"))])
+            tags.append("cachemulti:%s:%s" % (nm(b), "full" if k is None else "partial-" + how))
+            if k is None:
+                self.promise(sub(j, e), o, bfail, tags if step >= len(case["reads"]) else [])
+                if (j, e) not in full:
+                    full[(j, e)] = o
+                    for (pj, pe, pk, plabel, po) in [p for p in pending if p[0] == j and p[1] == e]:
+                        if "ids" in o and po != o["ids"][:pk]:
+                            fails.append(F("B", "%s: %s delivered %s, the later complete read starts with %s" % (what, plabel, po, o["ids"][:pk]), "cachemulti-%s-partial-read-differs" % nm(b)))
+                elif not same(full[(j, e)], o):
+                    bfail("delivered %s, an earlier complete read of the same pipeline %s (not determined by the seed / the input)" % (o.get("ids", o.get("err")), full[(j, e)].get("ids", full[(j, e)].get("err"))), nm(b) + "-reread-differs")
+            else:
+                if "err" in o:
+                    bfail("raised %s (%s)" % (o["err"], o.get("msg", "")), "%s-raises-%s" % (nm(b), o["err"]))
+                elif o["bad"]:
+                    bfail(o["bad"][0], nm(b) + "-content-altered")
+                elif (j, e) in full and "ids" in full[(j, e)]:
+                    if o["ids"] != full[(j, e)]["ids"][:k]:
+                        bfail("delivered %s, a complete read of the same pipeline starts with %s" % (o["ids"], full[(j, e)]["ids"][:k]), nm(b) + "-partial-read-differs")
+                else:
+                    pending.append((j, e, k, label, o["ids"]))
+        model = None
+        if driver is not None and not fails:
+            req = {"op": "cachemulti", "nslice": 25, "items": [], "envs": [model_items({"kind": case["kind"], "items": e_}) for e_ in envs],
+                   "reads": [[e, None if branches[j] is None else self.inner_req(branches[j]), need_of(branches[j], k), k] for j, e, k, how in order]}
+            ans = driver.ask(req)
+            model = ans["reads"]
+            got = [r[4] for r in impl["reads"]]
+            mo = [r.get("out", r.get("err")) for r in model]
+            if mo != got:
+                i = next(i for i in range(len(got)) if i >= len(mo) or mo[i] != got[i])
+                fails.append(F("A", "%s: read #%d %s delivers %s, the model (multiCachedRun, pull %s) %s" % (what, i, order[i], got[i], ans["needs"][i] if i < len(mo) else None, mo[i] if i < len(mo) else None), "A:cachemulti"))
+            for (j, e, k, how), nd in zip(order, ans["needs"]):
+                if isinstance(need_of(branches[j], k), str):
+                    tags.append("cachemulti:pull-" + need_of(branches[j], k) + ("-all" if nd is None else "-%d" % nd))
+        return {"fails": fails, "nontrivial": sum(1 for e_ in envs if len(e_) >= 2) >= 1, "tags": tags, "impl": impl, "model": model}
+
+    # ------------------------------------------------------------ the control flow of Environments.shuffle / .chunk
+    def generate_shufcall(self, rng, tier, boundary=False):
+        """Environments(1-3 short environments).shuffle(<every call form>): n=k, seed=v, seeds=v, seeds=[...] (nested one level, empty,
+        duplicates, unsorted), positional seeds, nothing; plus chunk() / chunk(cache=True/False)"""
+        ne = rng.choice([1, 2, 2, 3])
+        self._sparse_ids, self._log_prob, self._log_acts, self._extra, self._bare_keys = False, False, True, False, []
+        kind = rng.choice(["sim", "log"])
+        envs = []
+        for e in range(ne):
+            items, _ = self.gen_items(rng, rng.choice([0, 1, 2, 4, 6]), kind, "list", "list")
+            envs.append([dict(it, id=100 * e + i) for i, it in enumerate(items)])
+        sd = lambda: rng.choice([0, 0, 1, 1, 2, 3, 5, 9, 40, 2 ** 30 + 1])
+        def row():
+            out = []
+            for _ in range(rng.choice([0, 1, 2, 2, 3, 4])):
+                out.append(sd() if rng.chance(0.75) else [sd() for _ in range(rng.choice([0, 1, 2, 3]))])
+            return out
+        form = rng.below(6)
+        if form == 0:
+            call = {"n": rng.choice([0, 0, 1, 2, 3, 5])}
+        elif form == 1:
+            call = {"int": sd(), "kw": rng.choice(["seed", "seeds", "pos"])}
+        elif form in (2, 3):
+            call = {"row": row(), "kw": rng.choice(["seeds", "seeds", "seed", "pos"])}
+            if call["kw"] == "pos":          # shuffle([..]) is already one level deep: only plain seeds inside (deeper nesting is not a legal call)
+                call["row"] = [x for x in call["row"] if isinstance(x, int)]
+        else:
+            call = {"args": row() if form == 4 else []}
+        return {"kind": kind, "envs": envs, "op": {"name": "shufcall", "call": call, "chunk": rng.choice(["default", True, False])}, "input": "list"}
+
+    def corpus_shufcall(self, sim):
+        def env(off, n):
+            return [dict(it, id=off + i) for i, it in enumerate(sim(n))]
+        cs = []
+        for call in ({"n": 0}, {"n": 1}, {"n": 3}, {"int": 0, "kw": "seed"}, {"int": 0, "kw": "seeds"}, {"int": 0, "kw": "pos"}, {"int": 7, "kw": "seed"},
+                     {"row": [], "kw": "seeds"}, {"row": [3, 1, 2], "kw": "seeds"}, {"row": [[4, 2], 3], "kw": "seeds"}, {"row": [[], 0], "kw": "seed"},
+                     {"row": [[]], "kw": "seeds"}, {"row": [2, 2, 1], "kw": "pos"}, {"args": []}, {"args": [5, 1]}, {"args": [[3, 1], 2]}, {"args": [0]}):
+            for ck in ("default", False):
+                cs.append({"kind": "sim", "envs": [env(0, 4), env(100, 2)], "op": {"name": "shufcall", "call": call, "chunk": ck}, "input": "list"})
+        return cs
+
+    def evaluate_shufcall(self, case, driver):
+        from coba.environments import Environments
+        from coba.environments import filters as EF
+        fails, tags = [], []
+        call, envs = case["op"]["call"], case["envs"]
+        runs = [Run({"kind": case["kind"], "items": e, "op": {"name": "identity"}, "input": "list"}) for e in envs]
+        cls = _list_env_class()
+        mk = lambda: Environments([cls(r.items, "list", k) for k, r in enumerate(runs)])
+        form = "n" if "n" in call else "int-" + call["kw"] if "int" in call else "row-" + call["kw"] if "row" in call else "args"
+        what = "Environments(%s).shuffle(%s)" % (", ".join("env%d[%d]" % (k, len(e)) for k, e in enumerate(envs)), json.dumps(call))
+        tags += ["op:shufcall", "shufcall:" + form, "kind:" + case["kind"]]
+        impl = {}
+        try:
+            if "n" in call:
+                e = mk().shuffle(n=call["n"])
+            elif "args" in call:
+                e = mk().shuffle(*call["args"])
+            else:
+                v = call["int"] if "int" in call else call["row"]
+                e = mk().shuffle(v) if call["kw"] == "pos" else mk().shuffle(**{call["kw"]: v})
+            members = []
+            for pipe in getattr(e, "_envs"):
+                parts = list(pipe)
+                if isinstance(parts[-1], EF.BatchSafe) and isinstance(getattr(parts[-1], "_filter", None), EF.Finalize):
+                    parts = parts[:-1]
+                sh = [p_ for p_ in parts[1:] if isinstance(p_, EF.Shuffle)]
+                members.append((getattr(parts[0], "idx", None), sh[0]._seed if len(sh) == 1 and len(parts) == 2 else "?", parts))
+        except Exception as ex:  # noqa: BLE001
+            fails.append(F("B", "%s raised %s (%s)" % (what, errname(ex), str(ex)[:100]), "shufcall-%s-raises-%s" % (form, errname(ex))))
+            return {"fails": fails, "nontrivial": False, "tags": tags, "impl": impl, "model": None}
+        impl["members"] = [[i, sd] for i, sd, _ in members]
+        # (B) the seeds asked for (n=k means range(k); sequences flattened): every (environment, seed) once; each member = Shuffle(seed) of its environment
+        if "n" in call:
+            want = list(range(call["n"]))
+        elif "int" in call:
+            want = [call["int"]]
+        else:
+            want = [x for el in (call["row"] if "row" in call else call["args"]) for x in (el if isinstance(el, list) else [el])]
+        tags.append("shufcall:seeds=%s" % ("0" if not want else "1" if len(want) == 1 else "dups" if len(set(want)) < len(want) else ">1"))
+        if want:
+            exp_pairs = sorted((i, sd) for i in range(len(envs)) for sd in want)
+            if sorted((i, sd) if isinstance(sd, int) and i is not None else (-1, -1) for i, sd, _ in members) != exp_pairs:
+                fails.append(F("B", "%s built the members (environment, seed) %s, asked for: every environment with each of the seeds %s" % (what, impl["members"], want), "shufcall-%s-members" % form))
+        if not fails:
+            for i, sd, parts in members:
+                if i is None or not isinstance(sd, int):
+                    continue
+                from coba.pipes import Pipes
+                o = runs[i].read_once(lambda parts=parts: Pipes.join(*parts).read())
+                d = runs[i].read_once(lambda i=i, sd=sd: EF.Shuffle(sd).filter(give(runs[i].items, "list")))
+                if "err" in o or o["bad"] or sorted(o["ids"]) != sorted(runs[i].ids):
+                    fails.append(F("B", "%s: member (environment #%d, seed %d) delivered %s, not a permutation of %s" % (what, i, sd, o.get("ids", o.get("err")), runs[i].ids), "shufcall-not-a-permutation"))
+                elif not same(o, d):
+                    fails.append(F("B", "%s: member (environment #%d, seed %d) delivered %s, Shuffle(%d) on the same interactions %s" % (what, i, sd, o["ids"], sd, d.get("ids")), "shufcall-not-determined-by-seed"))
+        # chunk(): which filters follow each environment
+        ck = case["op"].get("chunk", "default")
+        try:
+            ec = mk().chunk() if ck == "default" else mk().chunk(cache=ck)
+            chunk_names = [[type(p_).__name__ for p_ in list(pipe)[1:]] for pipe in getattr(ec, "_envs")]
+        except Exception as ex:  # noqa: BLE001
+            chunk_names = "raised " + errname(ex)
+        impl["chunk"] = chunk_names
+        tags.append("shufcall:chunk=%s" % ck)
+        model = None
+        if driver is not None and not fails:
+            mcall = {"n": call["n"]} if "n" in call else {"int": call["int"]} if "int" in call else {"row": call["row"]} if "row" in call and call["kw"] != "pos" else \
+                    {"args": [call["row"]]} if "row" in call else {"args": call["args"]}
+            if "int" in call and call["kw"] == "pos":
+                mcall = {"args": [call["int"]]}
+            model = driver.ask({"op": "shufcall", "items": [], "call": mcall, "nenv": len(envs)})
+            if model["members"] != impl["members"]:
+                fails.append(F("A", "%s: members (environment, seed) %s, the model (shuffleSeeds + sortedMembers) %s" % (what, impl["members"], model["members"]), "A:shufcall-" + form))
+            if model["ran"] != model["seeds"]:
+                fails.append(F("C", "%s: the interpreted program gives %s, shuffleSeeds %s" % (what, model["ran"], model["seeds"]), "C:shufcall-program"))
+            mexp = model["chunk_true"] if ck in ("default", True) else model["chunk_false"]
+            if chunk_names != [mexp] * len(envs):
+                fails.append(F("A", "Environments(...).chunk(%s) appends %s to the environments, the model (chunkFilters) %s" % ("" if ck == "default" else "cache=%s" % ck, chunk_names, mexp), "A:chunk-filters"))
+        return {"fails": fails, "nontrivial": len(want) >= 1 and sum(1 for e_ in envs if len(e_) >= 2) >= 1, "tags": tags, "impl": impl, "model": model}
 
     def generate_product(self, rng, tier, boundary=False):
         """2-3 environments x 2-3 filters of one kind through Environments.filter([...]) / shuffle(seeds=[...]) / reservoir(n, seeds=[...])"""
@@ -1196,6 +1633,9 @@ class C09(Property):
         for ns, n_, reads in ((2, 7, [3, None, None]), (25, 60, [1, None, None]), (3, 10, [1, 4, None]), (1, 5, [2, 0, None]), (5, 12, [5, None])):
             cs.append({"kind": "sim", "items": sim(n_), "op": {"name": "cache", "nslice": ns, "reads": reads, "close": [k is not None for k in reads]}, "input": "gen"})
         cs.extend(self.corpus_cachepipe(sim, log))
+        cs.extend(self.corpus_reslong())
+        cs.extend(self.corpus_shufcall(sim))
+        cs.extend(self.corpus_cachemulti(sim, log))
         # collections of environments behind the Environments shortcut methods, read out of order and repeatedly
         def env(lo, n):
             return [{"id": lo + i, "ctx": {"l": [i % 3, "a"]}, "actions": [1, 2, 3], "rewards": [0, 1, 0]} for i in range(n)]
@@ -1263,6 +1703,10 @@ class C09(Property):
             return self.evaluate_unbatchg(case, driver)
         if case["op"]["name"] == "cachepipe":
             return self.evaluate_cachepipe(case, driver)
+        if case["op"]["name"] == "cachemulti":
+            return self.evaluate_cachemulti(case, driver)
+        if case["op"]["name"] == "shufcall":
+            return self.evaluate_shufcall(case, driver)
         fails, tags = [], []
         op = case["op"]
         name = op["name"]
@@ -1442,6 +1886,16 @@ class C09(Property):
                                    % (what, model["steps_py"][:6], model["steps"][:6]), "A:reservoir-steps"))
                 if "out_given" in model and model["out_given"] != model.get("out", model.get("err")):
                     fails.append(F("C", "%s: model with its own steps %s, with the recomputed steps %s" % (what, model.get("out", model.get("err")), model["out_given"]), "C:reservoir-steps"))
+                if name == "reservoir" and "runok" in model:
+                    # reservoir_total_iff_checked: the filter returns iff reservoirOk(count, steps, N) - evaluated by the driver on
+                    # the model's own IEEE steps (runok) and on CPython's steps (runok_given), mirrored here on lengths (runok_py)
+                    tags.append("reservoir:runok=%s" % model["runok"])
+                    if model["runok"] != ("err" not in o1):
+                        fails.append(F("A", "%s: the real filter %s, the model's run-time check reservoirOk says %s" % (what, "raised " + o1["err"] if "err" in o1 else "returned", model["runok"]), "A:reservoir-runok"))
+                    if model["runok"] != ("err" not in model):
+                        fails.append(F("C", "%s: reservoirOk %s but the model %s" % (what, model["runok"], "raised" if "err" in model else "returned"), "C:reservoir-runok"))
+                    if "runok_py" in model and not (model["runok_py"] == model["runok_given"] == model["runok"]):
+                        fails.append(F("C", "%s: reservoirOk on CPython's steps: Lean %s, Python mirror %s, on the model's steps %s" % (what, model["runok_given"], model["runok_py"], model["runok"]), "C:reservoir-runok-steps"))
                 if "spec" in model and model.get("out") != model["spec"]:
                     fails.append(F("C", "%s: model %s but spec %s" % (what, model.get("out"), model["spec"]), "C:" + name))
                 if name == "batch" and "batches" in model:
@@ -1498,7 +1952,15 @@ class C09(Property):
                     o = R.describe(list(g))
                 else:
                     o = R.describe(list(itertools.islice(g, c)))
-                    alive.append(g)
+                    lhow = leave_how(case, step)
+                    if lhow == "alive":
+                        alive.append(g)
+                    elif lhow == "close" and hasattr(g, "close"):
+                        g.close()
+                    del g
+                    if lhow != "alive":
+                        gc.collect(0)
+                    tags.append("multi:partial-" + lhow)
             except Exception as e:  # noqa: BLE001
                 o = {"err": errname(e), "msg": str(e)[:120]}
             impl["reads"].append([k, c, o.get("ids", o.get("err"))])
@@ -1615,7 +2077,15 @@ class C09(Property):
                     o = R.describe(list(g))
                 else:
                     o = R.describe(list(itertools.islice(g, c)))
-                    alive.append(g)
+                    lhow = leave_how(case, step)
+                    if lhow == "alive":
+                        alive.append(g)
+                    elif lhow == "close" and hasattr(g, "close"):
+                        g.close()
+                    del g
+                    if lhow != "alive":
+                        gc.collect(0)
+                    tags.append("product:partial-" + lhow)
             except Exception as ex:  # noqa: BLE001
                 o = {"err": errname(ex), "msg": str(ex)[:120]}
             impl["reads"].append([m, c, o.get("ids", o.get("err"))])
@@ -1746,7 +2216,20 @@ class C09(Property):
                 if len(out) != size:
                     bfail("sample has %d interactions, promised %d" % (len(out), size), "reservoir-wrong-size")
                 if len(set(map(str, out))) != len(out) or any(i not in ids for i in out):
-                    bfail("sample %s is not made of distinct input interactions %s" % (out, ids), "reservoir-not-distinct-inputs")
+                    bfail("sample %s is not made of distinct input interactions %s" % (out[:40], ids[:40]), "reservoir-not-distinct-inputs")
+                else:
+                    # "determined by the seed": the sample Algorithm L selects when driven, three uniforms per step, by ONE
+                    # CobaRandom(seed) stream (independent reference over public CobaRandom calls)
+                    try:
+                        exp, nsteps = ref_reservoir_public(ids, c, op["strict"], mk_seed(op["seed"]))
+                    except Exception:  # noqa: BLE001 - a broken generator is C05's business
+                        exp, nsteps = None, 0
+                    tags.append("reservoir:steps" + ("0" if nsteps == 0 else "<=20" if nsteps <= 20 else "21-40" if nsteps <= 40 else "41-63" if nsteps <= 63 else ">=64"))
+                    if exp is not None and out != exp:
+                        d = next((i for i in range(min(len(out), len(exp))) if out[i] != exp[i]), min(len(out), len(exp)))
+                        bfail("Reservoir(%s, seed=%r) on %d interactions (%d replacement steps) delivered %s..., the sample the seed determines (Algorithm L on "
+                              "CobaRandom(seed)'s stream, 3 uniforms per step) is %s... (first difference at position %d)"
+                              % (c, mk_seed(op["seed"]), n, nsteps, out[:12], exp[:12], d), "reservoir-not-the-seeds-sample" + ("-after-20-steps" if nsteps > 20 else ""))
             elif name == "sort":
                 self.check_sort(case, out, ids, bfail, tags)
             elif name == "where":
@@ -1868,6 +2351,8 @@ class C09(Property):
                     ans["steps_differ"] = True
                 given = driver.ask(dict(req, steps=mine))
                 ans["out_given"] = given.get("out_given", given.get("err_given"))
+                ans["runok_given"] = given.get("runok_given")
+                ans["runok_py"] = reservoir_ok_py(c, mine, n)
             ans["steps"] = ans["steps"][:40]
         return ans
 
@@ -1936,6 +2421,33 @@ class C09(Property):
         if case["op"]["name"] == "multi":
             yield from self.shrink_multi(case)
             return
+        if case["op"]["name"] == "shufcall":
+            envs = case["envs"]
+            if len(envs) > 1:
+                for x in range(len(envs)):
+                    yield dict(case, envs=envs[:x] + envs[x + 1:])
+            for x, its in enumerate(envs):
+                if len(its) > 1:
+                    yield dict(case, envs=envs[:x] + [its[:len(its) // 2]] + envs[x + 1:])
+            return
+        if case["op"]["name"] == "cachemulti":
+            reads, op, envs = case["reads"], case["op"], case["envs"]
+            for i in range(len(reads)):
+                yield dict(case, reads=reads[:i] + reads[i + 1:])
+            if len(op["branches"]) > 1:
+                for j in range(len(op["branches"])):
+                    yield dict(case, op=dict(op, branches=op["branches"][:j] + op["branches"][j + 1:]),
+                               reads=[[b - (b > j), e, k, h] for b, e, k, h in reads if b != j])
+            if len(envs) > 1:
+                for x in range(len(envs)):
+                    yield dict(case, envs=envs[:x] + envs[x + 1:], reads=[[b, e - (e > x), k, h] for b, e, k, h in reads if e != x])
+            for x, its in enumerate(envs):
+                for m in (len(its) // 2, len(its) - 5, len(its) - 1):
+                    if 0 < m < len(its):
+                        yield dict(case, envs=envs[:x] + [its[:m]] + envs[x + 1:])
+            if case.get("input", "list") != "list":
+                yield dict(case, input="list")
+            return
         if case["op"]["name"] == "cachepipe":
             reads, op = case["reads"], case["op"]
             for i in range(len(reads)):
@@ -1996,7 +2508,7 @@ class C09(Property):
                 break
 
     def snippet(self, case):
-        if case["op"]["name"] in ("product", "unbatchg", "cachepipe"):
+        if case["op"]["name"] in ("product", "unbatchg", "cachepipe", "cachemulti", "shufcall"):
             return ("# plain reproduction against the coba checkout (no Lean): evaluates the case with the harness monitor only\n"
                     "import sys, json; sys.path[:0] = [%r, %r]\n"
                     "from props.c09 import PROPERTY\n"
